@@ -142,9 +142,13 @@ pub fn c19_case(text: &str) -> CaseOut {
                         e.extend(deps.ingress.iter().copied());
                     }
                     if (cyc || with_ingress) && !oracle::named_cycle_is_real(flat, &names, &e) {
+                        let mut e2 = deps.deps.clone();
+                        e2.extend(deps.ingress.iter().copied());
+                        let via_ingress = oracle::named_cycle_is_real(flat, &names, &e2);
                         out.viols.push((
-                            "C19/diagnostic-cycle-not-real".into(),
-                            format!("the nodes named in the diagnostic {names:?} do not form a cycle of the dependency graph\n{}", flat_dump()),
+                            if via_ingress { "C19/diagnostic-cycle-not-real/uses-loop-ingress-order".into() } else { "C19/diagnostic-cycle-not-real".into() },
+                            format!("the graph has a dependency cycle, but the nodes named in the diagnostic {names:?} do not form a cycle of the dependency graph{}\n{}",
+                                if via_ingress { " (they do once the partitioner's loop-ingress ordering constraints are added)" } else { "" }, flat_dump()),
                         ));
                     }
                     out.tag.push_str(&format!("/len{}", names.len()));
